@@ -209,8 +209,8 @@ def worker(arg):
 def check(tier, seed):
     t = pc.trees("plain", "san")
     fundir = ensure_functors()
-    n = 500 if tier == "quick" else 5000
-    nsan = 30 if tier == "quick" else 300
+    n = 500 if tier == "quick" else 3000
+    nsan = 30 if tier == "quick" else 150
     res = Result("exploration")
     res.rule = RULE
     base = seed * 1000000 + (0 if tier == "quick" else 50000) + 120000
